@@ -499,8 +499,8 @@ def run_corpus(scenarios, tag, shards=None):
             if not r["ok"]:
                 agg["errors"].append("TLC did not accept trace %s: %s" % (r.get("trace"), r["out"][-1200:]))
                 continue
-            agg["viol"] += r["viol"]
-            agg["drift"] += r["drift"]
+            agg["viol"] += [v for v in r["viol"] if v.get("prop") != "DRIFT"]
+            agg["drift"] += r["drift"] + [v for v in r["viol"] if v.get("prop") == "DRIFT"]     # conformance to the executable model (Conformance.tla)
             for k, v in r["cov"].items():
                 agg["cov"][k] = agg["cov"].get(k, 0) + v
             for k, v in r["classes"].items():
